@@ -205,9 +205,17 @@ func Lin(a Args) {
 		emu.Unlock()
 	}
 	sched := gate.New(emit)
-	lockedMain, slot := orcas.Locked(orcas.L1L2, multi, conc)
-	lockedBatch := orcas.LockedWithExisting(orcas.L1L2Batch, slot)
-	orcas.VerifWrapLockers(slot, func(i int, w, r sync.Locker) (sync.Locker, sync.Locker) { return gate.WrapPair(sched, i, w, r) })
+	var lockedMain, lockedBatch orcas.OrcaConst
+	if a.Mode == "none" {
+		// no locking wrapper: the orchestrators interleave freely at handler-call granularity. Executions are not
+		// expected to be linearizable then; what is checked is the reply discipline (C08) under interleaving
+		lockedMain, lockedBatch = orcas.L1L2, orcas.L1L2Batch
+	} else {
+		var slot uint32
+		lockedMain, slot = orcas.Locked(orcas.L1L2, multi, conc)
+		lockedBatch = orcas.LockedWithExisting(orcas.L1L2Batch, slot)
+		orcas.VerifWrapLockers(slot, func(i int, w, r sync.Locker) (sync.Locker, sync.Locker) { return gate.WrapPair(sched, i, w, r) })
+	}
 
 	w := absx.NewWorld(a.Seed, absx.SizesSmall(), false)
 	// keys k1, k2: same stripe iff the lock set has one stripe; with more stripes k2 lives elsewhere, k3 shares k1's
